@@ -117,8 +117,8 @@ def r2(ctx):
             continue
         # which edge rejects: the edge from which an Err(SignatureDoesNotMatch) is constructed and Ok unreachable
         oks = [x[0] for x in result_aggs(b, "Ok")]
-        rej_true = ts is not None and not any(b.reachable(ts, o) for o in oks)
-        rej_false = fs is not None and not any(b.reachable(fs, o) for o in oks)
+        rej_true = ts is not None and not any(o in b.reach_feasible(ts) for o in oks)
+        rej_false = fs is not None and not any(o in b.reach_feasible(fs) for o in oks)
         if rej_true == rej_false:
             yield VIOL("C04-R2", "prevalidate/time-cmp-no-reject", "neither/both edges of a timestamp comparison reject", where=b.span_of_block(bi))
             continue
@@ -137,7 +137,7 @@ def r2(ctx):
             yield VIOL("C04-R2", "prevalidate/time-cmp-operands", "timestamp comparison between `%s` and `%s` (expected request time against server -/+ mismatch)" % (k0, k1), where=b.span_of_block(bi))
             continue
         rej_succ = ts if rej_true else fs
-        kinds = {s["rv"]["variant"] for eb, i, s in err_sites(b) if b.reachable(rej_succ, eb) and any((aa, ss) == (a, rej_succ) for aa, ss in b.guards(eb))}
+        kinds = {s["rv"]["variant"] for eb, i, s in err_sites(b) if eb in b.reach_feasible(rej_succ) and any((aa, ss) == (a, rej_succ) for aa, ss in b.guards(eb))}
         if eff != want:
             yield VIOL("C04-R2", "prevalidate/%s-operator" % key, "request rejected as %s when req %s bound (must be strictly %s: the bound itself is inside the window)" % (key, eff, want), where=b.span_of_block(bi))
         elif kinds != {"SignatureDoesNotMatch"}:
@@ -178,14 +178,15 @@ def r4(ctx):
         yield VIOL("C04-R4", "validate_signature/window-before-lookup", "key lookup not dominated by prevalidate's success edge", where=v.span_of_block(gk[0]))
     else:
         yield PASS("C04-R4", "validate_signature/window-before-lookup", "get_signing_key dominated by the Continue edge of prevalidate(..)?", [site(v, gk[0], "get_signing_key")])
-    # inside prevalidate the two window checks come first: they dominate the credential split
+    # inside prevalidate every success return is dominated by both window comparisons (their relative order to the
+    # scope rules is C13's business, not this property's)
     b = ctx.fn(PV)
-    sp = b.calls(r"str>::split$")
     lt = [bi for bi, t in cmp_calls(b, r"PartialOrd::(lt|le|gt|ge)$")]
-    if sp and lt and all(b.dominates(x, sp[0][0]) for x in lt):
-        yield PASS("C04-R4", "prevalidate/window-before-scope", "window comparisons dominate the credential-scope checks", [site(b, x, "cmp") for x in lt])
+    oks = [x[0] for x in result_aggs(b, "Ok")]
+    if oks and len(lt) >= 2 and all(b.dominates_feasible(x, o) for x in lt for o in oks):
+        yield PASS("C04-R4", "prevalidate/window-before-success", "both window comparisons dominate every Ok(()) of prevalidate", [site(b, x, "cmp") for x in lt])
     else:
-        yield VIOL("C04-R4", "prevalidate/window-before-scope", "window comparisons do not dominate the credential-scope checks", where=loc(b.j["span"]))
+        yield VIOL("C04-R4", "prevalidate/window-before-success", "a success return of prevalidate is not dominated by both window comparisons", where=loc(b.j["span"]))
 
 
 import c16  # noqa: E402
